@@ -5,6 +5,12 @@
 //! harness thread itself; completions are reaped only with zero-timeout polls; futures / streams are
 //! polled by hand with a flag waker.  The only waits are bounded settle loops for completions the
 //! harness itself enabled (data is known to be available for an operation that was handed to the OS).
+//!
+//! Zero-length completions (`Cfg::eof`): `PeerClose` is a harness step like a peer write (the harness
+//! closes its own end; for loopback TCP it waits until the source shows POLLRDHUP), after which an
+//! operation handed to the OS must complete (with the unread data, then with 0 bytes); `EofBurst`
+//! performs pool_size + 1 managed reads at end of file in a row.  Whether the running kernel consumes
+//! a ring buffer for a 0-byte result is calibrated once at start (`calibrate`).
 
 use std::{
     cell::Cell,
@@ -88,6 +94,9 @@ pub struct Cfg {
     pub slots: usize,
     pub settle: Duration,
     pub verbose: bool,
+    /// zero-length completions are part of the alphabet: PeerClose (pipe / unix / tcp) and
+    /// EofBurst (pool_size + 1 managed reads at end of file in a row)
+    pub eof: bool,
 }
 
 pub fn driver_name(d: DriverType) -> &'static str {
@@ -187,7 +196,8 @@ impl AsFd for OpFd {
 struct Env {
     kind: Source,
     mine: Rc<OwnedFd>,
-    peer: OwnedFd,
+    /// None once the harness closed the peer end (PeerClose)
+    peer: Option<OwnedFd>,
     /// bytes written so far (stream position / file length)
     written: usize,
     /// (start, len) of every write (datagram boundaries for UDP)
@@ -298,12 +308,13 @@ impl Env {
         if kind != Source::File {
             set_nonblock(mine.as_raw_fd());
         }
-        Env { kind, mine: Rc::new(mine), peer, written: 0, writes: Vec::new(), fpos: 0 }
+        Env { kind, mine: Rc::new(mine), peer: Some(peer), written: 0, writes: Vec::new(), fpos: 0 }
     }
 
     fn write(&mut self, k: usize) {
         let data: Vec<u8> = (0..k).map(|i| pat(self.written + i)).collect();
-        let n = unsafe { libc::write(self.peer.as_raw_fd(), data.as_ptr() as *const _, k) };
+        let peer = self.peer.as_ref().unwrap_or_else(|| machinery("harness write after PeerClose".into())).as_raw_fd();
+        let n = unsafe { libc::write(peer, data.as_ptr() as *const _, k) };
         if n != k as isize {
             machinery(format!("harness write of {k} bytes returned {n} ({})", io::Error::last_os_error()));
         }
@@ -315,7 +326,7 @@ impl Env {
             let t0 = Instant::now();
             loop {
                 let mut q: libc::c_int = 0;
-                cvt(unsafe { libc::ioctl(self.peer.as_raw_fd(), libc::TIOCOUTQ, &mut q) }, "TIOCOUTQ");
+                cvt(unsafe { libc::ioctl(peer, libc::TIOCOUTQ, &mut q) }, "TIOCOUTQ");
                 if q == 0 {
                     break;
                 }
@@ -335,6 +346,57 @@ impl Env {
         let mut q: libc::c_int = 0;
         cvt(unsafe { libc::ioctl(self.mine.as_raw_fd(), libc::FIONREAD, &mut q) }, "FIONREAD");
         q as usize
+    }
+
+    fn closed(&self) -> bool {
+        self.peer.is_none()
+    }
+
+    /// can the peer end of this kind of source be closed so that reads see end of file?
+    /// (a connected UDP socket has no end of file; a file is at its end whenever the cursor is)
+    fn closable(kind: Source) -> bool {
+        matches!(kind, Source::Pipe | Source::Unix | Source::Tcp)
+    }
+
+    /// PeerClose: the harness closes its end; what it wrote before stays readable, then every
+    /// read-style operation completes with 0 bytes
+    fn close_peer(&mut self) {
+        let peer = self.peer.take().unwrap_or_else(|| machinery("PeerClose twice".into()));
+        drop(peer);
+        if self.kind == Source::Tcp {
+            // loopback TCP: own the delivery of the FIN (everything written was acknowledged before)
+            let t0 = Instant::now();
+            loop {
+                let mut pfd = libc::pollfd { fd: self.mine.as_raw_fd(), events: libc::POLLRDHUP, revents: 0 };
+                cvt(unsafe { libc::poll(&mut pfd, 1, 0) }, "poll(POLLRDHUP)");
+                if pfd.revents & (libc::POLLRDHUP | libc::POLLHUP) != 0 {
+                    break;
+                }
+                if t0.elapsed() > Duration::from_secs(2) {
+                    machinery("loopback TCP did not deliver the harness' FIN within 2 s".into());
+                }
+                std::thread::yield_now();
+            }
+        }
+    }
+
+    /// every further read-style operation completes with 0 bytes: the peer is closed and all it
+    /// wrote was consumed, or the file cursor is at (or behind) the end of the file
+    fn at_eof(&self) -> bool {
+        match self.kind {
+            Source::File => self.fpos >= self.written,
+            Source::Udp => false,
+            _ => self.closed() && self.inq() == 0,
+        }
+    }
+
+    /// a fresh source of the same kind with an open peer (the conservation probe needs data);
+    /// the position code of the written bytes continues
+    fn renew(&mut self) {
+        let mut n = Env::new(self.kind);
+        n.written = self.written;
+        n.writes = std::mem::take(&mut self.writes);
+        *self = n;
     }
 }
 
@@ -437,6 +499,8 @@ pub enum Act {
     Cancel(usize),
     Harvest,
     DropRt,
+    PeerClose,
+    EofBurst,
 }
 
 impl Act {
@@ -452,6 +516,8 @@ impl Act {
             Act::Cancel(s) => format!("Cancel(r{s})"),
             Act::Harvest => "Harvest".into(),
             Act::DropRt => "DropRuntimeKeepingHandles".into(),
+            Act::PeerClose => "PeerClose".into(),
+            Act::EofBurst => "EofBurst(pool_size+1 managed reads at end of file, each awaited)".into(),
         }
     }
 
@@ -469,6 +535,8 @@ impl Act {
             Act::Cancel(_) => "cancel",
             Act::Harvest => "harvest",
             Act::DropRt => "droprt",
+            Act::PeerClose => "close",
+            Act::EofBurst => "eofburst",
         }
     }
 }
@@ -507,6 +575,8 @@ struct Multi {
     /// a harvest happened since that poll
     harvested: bool,
     max_held: usize,
+    /// the stream reported its end (polling it again would start a new operation)
+    ended: bool,
 }
 
 pub struct Vio {
@@ -680,12 +750,16 @@ impl<'a> World<'a> {
             if self.multi.is_none() {
                 v.push(Act::MultiStart);
             } else {
-                v.push(Act::MultiNext);
+                if !self.multi.as_ref().is_some_and(|m| m.ended) {
+                    v.push(Act::MultiNext);
+                }
                 v.push(Act::MultiDrop);
             }
         }
-        v.push(Act::Write(false));
-        v.push(Act::Write(true));
+        if !self.env.closed() {
+            v.push(Act::Write(false));
+            v.push(Act::Write(true));
+        }
         for j in 0..self.held.len() {
             v.push(Act::Release(j));
         }
@@ -701,7 +775,52 @@ impl<'a> World<'a> {
             // dropping an idle runtime nobody holds anything of is what every teardown does anyway
             v.push(Act::DropRt);
         }
+        // zero-length completions (appended last: the choice numbers of the other steps are stable)
+        if self.cfg.eof {
+            if Env::closable(self.cfg.source) && !self.env.closed() {
+                v.push(Act::PeerClose);
+            }
+            if self.env.at_eof() && self.slots.iter().any(|s| s.is_none()) {
+                v.push(Act::EofBurst);
+            }
+        }
         v
+    }
+
+    /// a zero-length result is legitimate exactly at end of file
+    fn judge_zero(&mut self, origin: &str, multishot: bool) {
+        let legit = match self.cfg.source {
+            Source::File => true, // judged by the caller against the read position
+            Source::Udp => false,
+            _ => self.env.closed(),
+        };
+        if !legit {
+            self.vio(
+                "data-mismatch",
+                format!("{origin} reported end of data although the peer is open and never wrote an empty message"),
+            );
+            return;
+        }
+        let left = self.env.inq();
+        if self.cfg.source != Source::File && left > 0 {
+            self.vio(
+                "data-mismatch",
+                format!("{origin} reported end of data although {left} byte(s) the peer wrote before it closed are still unread"),
+            );
+            return;
+        }
+        if multishot {
+            self.reach("multishot-stream-ended-at-end-of-file");
+        } else if self.cfg.source != Source::File {
+            self.reach("managed-read-zero-length-completion");
+        }
+        if self.cfg.driver == DriverType::IoUring && !multishot && zero_selects(self.cfg.source) == Some(true) {
+            // the running kernel consumes a ring buffer for this completion (calibrated at start)
+            self.reach(ZERO_SELECTED);
+            if let Some(k) = zero_selected_by_kind(self.cfg.source) {
+                self.reach(k);
+            }
+        }
     }
 
     // ---------------------------------------------------------------------------------------
@@ -960,11 +1079,14 @@ impl<'a> World<'a> {
                         self.note("Ok(None)".into());
                         if self.cfg.source == Source::File && pos >= self.env.written {
                             self.reach("file-eof-zero-length-completion");
-                        } else {
+                            self.judge_zero(&origin, false);
+                        } else if self.cfg.source == Source::File {
                             self.vio(
                                 "data-mismatch",
-                                format!("{origin} reported end of data although the peer is open and never wrote an empty message"),
+                                format!("{origin} reported end of file at position {pos} of a file of {} bytes", self.env.written),
                             );
+                        } else {
+                            self.judge_zero(&origin, false);
                         }
                     }
                     Err(e) => self.on_error(e, &origin, max_held, shadow),
@@ -1020,7 +1142,7 @@ impl<'a> World<'a> {
                 let fd = OpFd::new(&self.env.mine, &probe);
                 let st = make_multi(rt, self.cfg.source, fd);
                 let (flag, waker) = new_flag();
-                self.multi = Some(Multi { st, flag, waker, probe, waiting: false, harvested: false, max_held: self.held.len() });
+                self.multi = Some(Multi { st, flag, waker, probe, waiting: false, harvested: false, max_held: self.held.len(), ended: false });
                 self.seen_multi = true;
                 // creating the stream object has no effect of its own: the step includes the first
                 // `next()` poll (which creates and queues the first operation)
@@ -1056,18 +1178,39 @@ impl<'a> World<'a> {
                 self.bump_max_held();
             }
             Act::Harvest => {
-                // data available + an operation handed to the OS  =>  it must complete
-                let ok = self.settle(rt, 2, |w| !(w.pending_slots() > 0 && w.env.inq() > 0));
+                // data available (or end of file) + an operation handed to the OS  =>  it must complete
+                let ok = self.settle(rt, 2, |w| !(w.pending_slots() > 0 && (w.env.inq() > 0 || w.env.closed())));
                 if !ok {
                     self.vio(
                         if self.held.len() >= self.cfg.pool as usize { "exhaustion-hang" } else { "hang" },
                         format!(
-                            "a managed read stays pending for {:?} although {} byte(s) are readable on the source ({} handle(s) held)",
+                            "a managed read stays pending for {:?} although {} byte(s) are readable on the source{} ({} handle(s) held)",
                             self.cfg.settle,
                             self.env.inq(),
+                            if self.env.closed() { " and the peer is closed" } else { "" },
                             self.held.len()
                         ),
                     );
+                }
+            }
+            Act::PeerClose => {
+                self.env.close_peer();
+                self.note(format!("{} unread byte(s) left", self.env.inq()));
+            }
+            Act::EofBurst => {
+                for _ in 0..=self.cfg.pool {
+                    let i = self.slots.iter().position(|s| s.is_none()).unwrap();
+                    self.start_read(rt, i, 0);
+                    if self.slots[i].is_some() {
+                        // end of file is never consumed: the read completes by construction
+                        let ok = self.settle(rt, 0, |w| w.slots[i].is_none());
+                        if !ok && !self.failed() {
+                            self.vio("hang", format!("managed read at end of file still pending after {:?}", self.cfg.settle));
+                        }
+                    }
+                    if self.failed() {
+                        break;
+                    }
                 }
             }
             Act::Stop | Act::DropRt => unreachable!(),
@@ -1100,7 +1243,7 @@ impl<'a> World<'a> {
         let mut r = self.poll_multi();
         if r.is_pending() {
             let m = self.multi.as_ref().unwrap();
-            if m.waiting && m.harvested && self.env.inq() > 0 {
+            if m.waiting && m.harvested && (self.env.inq() > 0 || self.env.at_eof()) {
                 // the stream's operation was handed to the OS by an earlier harvest and data is
                 // readable: an item (or the exhaustion error) is due
                 let t0 = Instant::now();
@@ -1110,7 +1253,7 @@ impl<'a> World<'a> {
                         return;
                     }
                     r = self.poll_multi();
-                    if r.is_ready() || self.env.inq() == 0 {
+                    if r.is_ready() || (self.env.inq() == 0 && !self.env.closed()) {
                         // an item arrived, or another operation took the data meanwhile
                         break;
                     }
@@ -1118,9 +1261,10 @@ impl<'a> World<'a> {
                         self.vio(
                             if self.held.len() >= self.cfg.pool as usize { "exhaustion-hang" } else { "hang" },
                             format!(
-                                "the multishot stream stays pending for {:?} although {} byte(s) are readable ({} handle(s) held)",
+                                "the multishot stream stays pending for {:?} although {} byte(s) are readable{} ({} handle(s) held)",
                                 self.cfg.settle,
                                 self.env.inq(),
+                                if self.env.closed() { " and the peer is closed" } else { "" },
                                 self.held.len()
                             ),
                         );
@@ -1155,10 +1299,8 @@ impl<'a> World<'a> {
                     }
                     None => {
                         self.note("end of stream".into());
-                        self.vio(
-                            "data-mismatch",
-                            "the multishot stream ended although the peer is open".into(),
-                        );
+                        self.multi.as_mut().unwrap().ended = true;
+                        self.judge_zero("the multishot stream", true);
                     }
                 }
             }
@@ -1241,6 +1383,12 @@ impl<'a> World<'a> {
             return;
         }
         // make data available for pool_size + 1 reads
+        if self.env.closed() {
+            // the peer of the program's source is gone: the probe reads from a fresh source of the
+            // same kind (same runtime, same pool)
+            self.loss |= self.env.inq() > 0;
+            self.env.renew();
+        }
         self.in_probe = true;
         let p = self.cfg.pool as usize;
         match self.cfg.source {
@@ -1393,7 +1541,11 @@ pub fn initial_branching(cfg: &Cfg) -> usize {
     if cfg.depth == 0 {
         return 1;
     }
-    1 + cfg.lens.len() + (cfg.source != Source::File) as usize + 2
+    1 + cfg.lens.len()
+        + (cfg.source != Source::File) as usize
+        + 2
+        + (cfg.eof && Env::closable(cfg.source)) as usize
+        + (cfg.eof && cfg.source == Source::File) as usize
 }
 
 pub fn build_rt(cfg: &Cfg) -> Runtime {
@@ -1463,11 +1615,12 @@ pub fn execute(cfg: &Cfg, ch: &mut Chooser) -> Exec {
             "buf"
         } else if tail.contains("pending") {
             "pend"
-        } else if tail.contains("Ok(None)") {
+        } else if tail.contains("Ok(None)") || tail.contains("end of stream") {
             "eof"
         } else {
             "-"
         };
+        let cls = if a == Act::EofBurst && cls == "pend" { "eof" } else { cls };
         w.obs.push(format!("{}>{}", a.kind(), cls));
         if w.failed() {
             break;
@@ -1513,4 +1666,132 @@ pub fn execute(cfg: &Cfg, ch: &mut Chooser) -> Exec {
     sig.sort();
     sig.dedup();
     Exec { vios: w.vios, sig: sig.join(" "), steps: w.steps as u64 + 1, reached: w.reached, history: w.hist }
+}
+
+// ---------------------------------------------------------------------------------------------
+// calibration of the running kernel: does a 0-byte completion consume a ring buffer?
+// ---------------------------------------------------------------------------------------------
+
+/// must-reach counter of the zero-length dimension
+pub const ZERO_SELECTED: &str = "managed_read_completed_with_zero_bytes_and_a_selected_buffer";
+
+/// the same, per operation type
+pub fn zero_selected_by_kind(kind: Source) -> Option<&'static str> {
+    match kind {
+        Source::Pipe => Some("managed_read_completed_with_zero_bytes_and_a_selected_buffer:pipe-ReadManaged"),
+        Source::File => Some("managed_read_completed_with_zero_bytes_and_a_selected_buffer:file-ReadManagedAt"),
+        Source::Unix | Source::Tcp => Some("managed_read_completed_with_zero_bytes_and_a_selected_buffer:socket-RecvManaged"),
+        Source::Udp => None,
+    }
+}
+
+static ZERO_SELECTS: std::sync::OnceLock<Vec<(Source, Option<bool>)>> = std::sync::OnceLock::new();
+
+/// Some(true): on the io_uring driver a single-shot managed read of this source that completes with
+/// 0 bytes has consumed a buffer of the ring (observed at start, see `calibrate`)
+pub fn zero_selects(kind: Source) -> Option<bool> {
+    ZERO_SELECTS.get().and_then(|v| v.iter().find(|(k, _)| *k == kind).and_then(|(_, b)| *b))
+}
+
+fn drive<F: Future>(rt: &Runtime, fut: F, bound: Duration) -> Option<F::Output> {
+    let mut fut = std::pin::pin!(fut);
+    let (_flag, waker) = new_flag();
+    let mut cx = Context::from_waker(&waker);
+    let t0 = Instant::now();
+    loop {
+        if let Poll::Ready(r) = fut.as_mut().poll(&mut cx) {
+            return Some(r);
+        }
+        if t0.elapsed() > bound {
+            return None;
+        }
+        rt.poll_with(Some(Duration::ZERO));
+        rt.run();
+        std::thread::sleep(Duration::from_micros(200));
+    }
+}
+
+/// Independent of compio's own bookkeeping: with a ring of ONE buffer, a first managed read at end
+/// of file is completed and its operation value is kept alive; a second one then either fails with
+/// "no buffer" (the kernel consumed the only buffer for the first 0-byte result, whoever owns it
+/// now) or completes with 0 bytes as well (the kernel did not consume one).
+fn calibrate_kind(kind: Source) -> Option<bool> {
+    if kind == Source::Udp {
+        return None;
+    }
+    alloc::reset();
+    let cfg = Cfg {
+        driver: DriverType::IoUring,
+        pool: 1,
+        buflen: 8,
+        source: kind,
+        depth: 0,
+        lens: vec![0],
+        slots: 1,
+        settle: Duration::from_secs(1),
+        verbose: false,
+        eof: true,
+    };
+    let rt = build_rt(&cfg);
+    let mut env = Env::new(kind);
+    if Env::closable(kind) {
+        env.close_peer();
+    }
+    let probe = Rc::new(Probe::default());
+    let bound = Duration::from_secs(1);
+    fn verdict<O>(r1: &io::Result<usize>, second: &Option<BufResult<usize, O>>) -> Option<bool> {
+        if !matches!(r1, Ok(0)) {
+            return None;
+        }
+        match second {
+            Some(BufResult(Ok(0), _)) => Some(false),
+            Some(BufResult(Err(e), _))
+                if e.kind() == io::ErrorKind::ResourceBusy || e.raw_os_error() == Some(libc::ENOBUFS) =>
+            {
+                Some(true)
+            }
+            _ => None,
+        }
+    }
+    macro_rules! two {
+        ($mk:expr) => {{
+            (|| {
+                let BufResult(r1, op1) = drive(&rt, rt.submit($mk.ok()?), bound)?;
+                let second = drive(&rt, rt.submit($mk.ok()?), bound);
+                let v = verdict(&r1, &second);
+                drop(second);
+                drop(op1);
+                v
+            })()
+        }};
+    }
+    let v = rt.enter(|| {
+        let pool = rt.buffer_pool().ok()?;
+        match kind {
+            Source::Pipe => two!(ReadManaged::new(OpFd::new(&env.mine, &probe), &pool, 0)),
+            Source::Unix | Source::Tcp => {
+                two!(RecvManaged::new(OpFd::new(&env.mine, &probe), &pool, 0, RecvFlags::empty()))
+            }
+            Source::File => two!(ReadManagedAt::new(OpFd::new(&env.mine, &probe), 0, &pool, 0)),
+            Source::Udp => None,
+        }
+    });
+    // let the driver release the operations before the runtime goes away
+    for _ in 0..50 {
+        if probe.live.get() == 0 {
+            break;
+        }
+        rt.poll_with(Some(Duration::ZERO));
+        rt.run();
+        std::thread::sleep(Duration::from_micros(200));
+    }
+    drop(rt);
+    let _ = alloc::finish();
+    alloc::reset();
+    v
+}
+
+/// run once, on the main thread, before any execution
+pub fn calibrate() -> &'static [(Source, Option<bool>)] {
+    ZERO_SELECTS.get_or_init(|| Source::ALL.iter().map(|&k| (k, calibrate_kind(k))).collect())
 }
